@@ -429,7 +429,12 @@ end Adsb.Gen
         formulas = rust2lean.generate_formulas(read)
     except rust2lean.Unsupported as e3:
         formulas = stub(e3).replace("import Adsb.MiniRust", "import Adsb.TrackerF\nimport Adsb.App").replace("source_outside_translated_fragment", "formulas_outside_translated_fragment")
-    for name, txt in (("Fns.lean", fns), ("CrcFn.lean", crcfn), ("Formulas.lean", formulas)):
+    # cpr.rs: positive_mod / get_lat_lon / get_position as terms generic in the number type (Gen/CprFn.lean)
+    try:
+        cprfn = rust2lean.generate_cpr(read)
+    except rust2lean.Unsupported as e4:
+        cprfn = stub(e4).replace("import Adsb.MiniRust", "import Adsb.Cpr").replace("source_outside_translated_fragment", "cpr_outside_translated_fragment")
+    for name, txt in (("Fns.lean", fns), ("CrcFn.lean", crcfn), ("Formulas.lean", formulas), ("CprFn.lean", cprfn)):
         pf = os.path.join(OUT, name)
         if not os.path.exists(pf) or open(pf).read() != txt: open(pf, "w").write(txt)
     # bit offsets of the plain deku structs (Gen/Layout.lean), with the widths of the custom readers taken from the translated functions
